@@ -13,7 +13,7 @@ Definition lit (x : string) : str := map N_of_ascii (list_ascii_of_string x).
 Inductive ty := TObject | TInt | TBool | TStr | TTuple | TList | TSet | TFloat | TType | TNoneT | TUser (c : N).
 Inductive const := CBool (b : bool) | CInt (z : Z) | CStr (s : str) | CNone | CNaN.
 Inductive meth := Startswith | Endswith.
-Inductive builtin := BIsinstance | BIssubclass | BHasattr | BCallable | BAny | BAll | BSum | BMin | BMax | BSet | BLen.
+Inductive builtin := BIsinstance | BIssubclass | BHasattr | BCallable | BAny | BAll | BSum | BMin | BMax | BSet | BLen | BBool.
 Inductive bop := BOr | BAnd.
 
 Inductive expr :=
@@ -45,7 +45,7 @@ Definition meth_eqb (a b : meth) : bool := match a, b with Startswith, Startswit
 Definition builtin_eqb (a b : builtin) : bool :=
   match a, b with
   | BIsinstance, BIsinstance | BIssubclass, BIssubclass | BHasattr, BHasattr | BCallable, BCallable | BAny, BAny | BAll, BAll
-  | BSum, BSum | BMin, BMin | BMax, BMax | BSet, BSet | BLen, BLen => true
+  | BSum, BSum | BMin, BMin | BMax, BMax | BSet, BSet | BLen, BLen | BBool, BBool => true
   | _, _ => false
   end.
 Definition ty_eqb (a b : ty) : bool :=
@@ -95,7 +95,7 @@ Definition pp_builtin (f : builtin) : str :=
   match f with
   | BIsinstance => lit "isinstance" | BIssubclass => lit "issubclass" | BHasattr => lit "hasattr" | BCallable => lit "callable"
   | BAny => lit "any" | BAll => lit "all" | BSum => lit "sum" | BMin => lit "min" | BMax => lit "max" | BSet => lit "set"
-  | BLen => lit "len"
+  | BLen => lit "len" | BBool => lit "bool"
   end.
 Definition pp_bop (o : bop) : str := match o with BOr => lit " or " | BAnd => lit " and " end.
 Definition paren (p : bool) (s : str) : str := if p then 40%N :: s ++ [41%N] else s.
@@ -323,7 +323,7 @@ Fixpoint names (e : expr) : list str :=
                end
   end.
 Definition builtin_names : list str :=
-  map pp_builtin [BIsinstance; BIssubclass; BHasattr; BCallable; BAny; BAll; BSum; BMin; BMax; BSet; BLen].
+  map pp_builtin [BIsinstance; BIssubclass; BHasattr; BCallable; BAny; BAll; BSum; BMin; BMax; BSet; BLen; BBool].
 
 Fixpoint size (e : expr) : nat :=
   let sz := fix sz (es : list expr) : nat := match es with [] => O | a :: t => size a + sz t end in
